@@ -251,6 +251,14 @@ func checkToken(t token.Token, loc *located, atEOFOK bool) (what string) {
 // its own literal there or sits at the start of a token the lexer produced
 // (or at the end of input).
 func checkErrorToken(t token.Token, loc *located, toks []token.Token) string {
+	if t.Type == token.EOF {
+		// an error "at end of input" must point at the end of the input (the
+		// position of the first EOF token the lexer hands out), not past it
+		if _, ok := loc.at(t.Line, t.Position); !ok {
+			return "eof-out-of-range"
+		}
+		return ""
+	}
 	w := checkToken(t, loc, true)
 	if w != "not-at-text" {
 		return w
